@@ -8,6 +8,7 @@
 #include "transposition_table.h"
 #include "types.h"
 
+#include <atomic>
 #include <chrono>
 #include <cstdint>
 
@@ -92,7 +93,8 @@ class Search
     Limits limits;
 
     int64_t check_limits_counter;
-    bool stop_search;
+    // set by the UCI thread, polled by the search thread
+    std::atomic<bool> stop_search;
 
     Duration _search_time;
     Depth _search_depth;
